@@ -123,8 +123,71 @@ def aligner_locate_e3(c):
     c.mutant("self.n_counts[m - length]", "self.n_counts[m - length - 1]")
 
 
+def install(world):
+    _aligner_install(world)
+
+    def where_value(name, cx):
+        # Where.<NAME>.value, computed from the real enum definitions (see c01.finite_checks)
+        if name.startswith("Where."):
+            return None
+        return None
+    import ast as _ast
+    from pyvc import frontends
+
+    def where_provider(name, cx):
+        if not name.startswith("Where."):
+            return None
+        tree = frontends.py_module("align.py")[1]
+        endskip = {}
+        for st in frontends.find_py(tree, "EndSkip").body:
+            if isinstance(st, _ast.Assign) and isinstance(st.value, _ast.Constant):
+                endskip[st.targets[0].id] = st.value.value
+        atree = frontends.py_module("adapters.py")[1]
+        fields = {}
+        for st in frontends.find_py(atree, "Where").body:
+            if isinstance(st, _ast.Assign):
+                v = eval(compile(_ast.Expression(st.value), "w", "eval"), {"EndSkip": type("E", (), endskip)})
+                fields[st.targets[0].id] = ObjV("EnumMember", {"value": z3.IntVal(int(v))})
+        return fields.get(name.split(".", 1)[1])
+    world.global_providers.append(where_provider)
+
+
 def extra_checks(res, tier, seed, known, log):
     from pyvc import runner
     runner.runtime_standin(res, "C02", "c01", "match_to", seed, 4000 if tier == "quick" else 60000, 40 if tier == "quick" else 600,
                            prefix="C02:", label="cut-position sentences (leftmost/rightmost copy, exact anchored removal) and occurrence clauses "
                                                 "at the level of the adapter classes, brute-force oracle")
+
+
+# ---------------------------------------------------------------- which aligner an anchored adapter uses
+from pyvc.api import ConstT   # noqa
+from pyvc.values import ObjV, PyConst  # noqa
+
+AnchoredT = ObjT("PrefixAdapter", sequence=Str, max_error_rate=Real, adapter_wildcards=Bool, read_wildcards=Bool, min_overlap=Int, indels=Bool)
+
+
+def _aligner_install(world):
+    from .c10 import abstract_ctor
+    for cls in ("Aligner", "PrefixComparer", "SuffixComparer"):
+        world.ctor_handlers.setdefault(cls, abstract_ctor(cls))
+
+
+def _anchored_aligner(cls, comparer, where):
+    @contract("adapters.py", f"{cls}._aligner", props=["C02", "C01"])
+    def _c(c):
+        c.types(self=ObjT(cls, **AnchoredT.fields))
+        c.spec(lambda cx: cx.spec.update(
+            is_class=lambda o, name: z3.BoolVal(o.cls == name.v),
+            kw=lambda o, name: o.fields.get("kw_" + name.v, o.fields.get(name.v))))
+        c.ensures(
+            hamming_comparer_only_when_indels_are_disabled=f"implies(self.indels, is_class(result, 'Aligner')) and implies(not self.indels, is_class(result, '{comparer}'))",
+            with_indels_the_aligner_allows_them="implies(self.indels, kw(result, 'indel_cost') == 1)",
+            anchored_flag_set=f"implies(self.indels, kw(result, 'flags') == {where})",
+            overlap_and_rate_passed_on="implies(self.indels, kw(result, 'min_overlap') == self.min_overlap) and implies(not self.indels, kw(result, 'min_overlap') == self.min_overlap)",
+        )
+        c.mutant("if not self.indels:", "if not self.indels or self.max_error_rate * len(self.sequence) <= 1:")
+    return _c
+
+
+prefix_aligner = _anchored_aligner("PrefixAdapter", "PrefixComparer", 8)
+suffix_aligner = _anchored_aligner("SuffixAdapter", "SuffixComparer", 2)
